@@ -281,3 +281,350 @@ Proof.
   - right. right. exists z. unfold FC. auto.
   - right. right. exists z. unfold FC. auto.
 Qed.
+
+(** * The fate of a node with an unsuccessful terminal report *)
+Lemma submit_attempts_ok_ev g x r n : forall s s',
+  submit_attempts g x r n s = (true, s') ->
+  exists j, In (ESubmit x (kind_of r) (scheduled (attr g x)) (Some j)) (evs s').
+Proof.
+  induction n as [|n IH]; intros s s' E.
+  - rewrite submit_attempts_O in E. discriminate.
+  - rewrite submit_attempts_S in E. cbv zeta in E.
+    destruct (next_sub _) as [b s3] eqn:En. destruct b.
+    + inversion E. eexists. left. reflexivity.
+    + eapply IH; eauto.
+Qed.
+
+Lemma execute_record_outcome c g x r s : WF g -> Inv g s -> x < length g -> dry c = false ->
+  let s' := execute_record_gen c g x r s in
+  (exists j, In (ESubmit x (kind_of r) (scheduled (attr g x)) (Some j)) (evs s')) \/
+  ((forall y, In y (bfs_subtree g x) -> In y (failed s')) /\ status (getrec s' x) = FAILED).
+Proof.
+  intros W I Hx D. cbv zeta. unfold execute_record_gen. rewrite D.
+  set (s1 := if negb r then emit (EGen x) s else s).
+  assert (L1 : length (recs s1) = length g).
+  { rewrite <- (i_len_recs g s I). subst s1; destruct (negb r); reflexivity. }
+  destruct (submit_attempts g x r (attempts c) s1) as [ok s2] eqn:E. destruct ok.
+  - left. destruct (submit_attempts_ok_ev g x r _ _ _ E) as [j Hj]. exists j.
+    destruct (negb (scheduled (attr g x))); exact Hj.
+  - right. apply submit_attempts_spec in E. destruct E as [[_ RL _ _ _] _ _ _]. split.
+    + intros y Hy. apply mfl_failed. auto.
+    + apply mfl_status_in; [apply bfs_subtree_root|]. unfold inprog_remove. sp. lia.
+Qed.
+
+Section Fate.
+Variables (c : cfg) (g : graph) (p : pin) (s : st).
+Hypothesis W : WF g.
+
+Definition PendF (t : st) (cl ca : list nat) (x : nat) : Prop :=
+  (forall y, In y (bfs_subtree g x) -> In y (failed t) \/ In y cl) /\ ~ In x ca /\
+  (In x cl \/ status (getrec t x) = FAILED) /\ incl (parents (attr g x)) (completed t).
+Definition SetF (t : st) (cl ca : list nat) (x : nat) : Prop :=
+  In x (failed t) /\ ~ In x cl /\ ~ In x ca /\ status (getrec t x) = TIMEDOUT /\
+  incl (parents (attr g x)) (completed t).
+Definition PendC (t : st) (cl ca : list nat) (x : nat) : Prop :=
+  (forall y, In y (bfs_subtree g x) -> In y (cancelled t) \/ In y ca) /\ ~ In x cl /\
+  (In x ca \/ status (getrec t x) = CANCELLED) /\ incl (parents (attr g x)) (completed t).
+Definition Restarted (t : st) (x : nat) : Prop := exists sc j, In (ESubmit x Restart sc (Some j)) (evs t).
+
+(** TIMEDOUT is final: no restart command, or a cancel was requested *)
+Definition cond_nr (x : nat) : Prop :=
+  has_restart (attr g x) = false \/ canceled s = true \/ cancel_req p = true.
+(** TIMEDOUT with the restart budget used up *)
+Definition cond_ex (x : nat) : Prop :=
+  has_restart (attr g x) = true /\ canceled s = false /\ cancel_req p = false /\
+  0 < rlimit (attr g x) /\ rlimit (attr g x) <= restarts (getrec s x).
+
+Definition fate (t : st) (cl ca : list nat) (x : nat) (v : State) : Prop :=
+  match v with
+  | FAILED | UNKNOWN => PendF t cl ca x
+  | CANCELLED => PendC t cl ca x
+  | TIMEDOUT => (cond_nr x -> SetF t cl ca x) /\ (cond_ex x -> PendF t cl ca x) /\
+                (SetF t cl ca x \/ PendF t cl ca x \/ Restarted t x)
+  | _ => True
+  end.
+
+Record J5 (t : st) (cl ca : list nat) (done : list report) : Prop := {
+  k_cn : canceled t = true -> canceled s = true \/ cancel_req p = true;
+  k_cn2 : canceled s = true -> canceled t = true;
+  k_rs : forall x, ~ In x (map fst done) -> restarts (getrec t x) = restarts (getrec s x);
+  k_fate : forall x v, In (x, Some v) done -> fate t cl ca x v }.
+Definition J5c (a : conf) : Prop := let '(t, cl, ca, done) := a in J5 t cl ca done.
+
+(** a fate survives a step that does not concern the node *)
+Lemma fate_keep t cl ca t' cl' ca' x v :
+  (forall y, In y (failed t) -> In y (failed t')) -> (forall y, In y (cancelled t) -> In y (cancelled t')) ->
+  (forall y, In y cl -> In y (failed t') \/ In y cl') -> (forall y, In y ca -> In y (cancelled t') \/ In y ca') ->
+  (forall y, In y (completed t) -> In y (completed t')) -> (forall e, In e (evs t) -> In e (evs t')) ->
+  (U t cl ca x -> incl (parents (attr g x)) (completed t) ->
+     (In x cl' -> In x cl) /\ (In x ca' -> In x ca) /\
+     (In x cl -> In x cl' \/ status (getrec t' x) = FAILED) /\
+     (In x ca -> In x ca' \/ status (getrec t' x) = CANCELLED) /\
+     (~ In x cl -> ~ In x ca -> status (getrec t' x) = status (getrec t x))) ->
+  fate t cl ca x v -> fate t' cl' ca' x v.
+Proof.
+  intros H1 H2 H3 H4 H10 H11 HK.
+  assert (KF : PendF t cl ca x -> PendF t' cl' ca' x).
+  { intros (A & B & C & D).
+    assert (Ux : U t cl ca x) by (unfold U; destruct (A x (bfs_subtree_root g x)); auto).
+    destruct (HK Ux D) as (K5 & K6 & K7 & K8 & K9). unfold PendF. split; [|split; [|split]].
+    - intros y Hy. destruct (A y Hy) as [Hf|Hc]; auto.
+    - auto.
+    - destruct (in_dec Nat.eq_dec x cl) as [Hi|Hn]; [apply K7; exact Hi|].
+      destruct C as [C|C]; [contradiction|]. right. rewrite K9; auto.
+    - intros z Hz. auto. }
+  assert (KS : SetF t cl ca x -> SetF t' cl' ca' x).
+  { intros (A & B & C & D & E).
+    assert (Ux : U t cl ca x) by (unfold U; auto).
+    destruct (HK Ux E) as (K5 & K6 & K7 & K8 & K9). unfold SetF. split; [|split; [|split; [|split]]]; auto.
+    - rewrite K9; auto.
+    - intros z Hz. auto. }
+  assert (KC : PendC t cl ca x -> PendC t' cl' ca' x).
+  { intros (A & B & C & D).
+    assert (Ux : U t cl ca x) by (unfold U; destruct (A x (bfs_subtree_root g x)); auto).
+    destruct (HK Ux D) as (K5 & K6 & K7 & K8 & K9). unfold PendC. split; [|split; [|split]].
+    - intros y Hy. destruct (A y Hy) as [Hf|Hc]; auto.
+    - auto.
+    - destruct (in_dec Nat.eq_dec x ca) as [Hi|Hn]; [apply K8; exact Hi|].
+      destruct C as [C|C]; [contradiction|]. right. rewrite K9; auto.
+    - intros z Hz. auto. }
+  assert (KR : Restarted t x -> Restarted t' x).
+  { intros (sc & j & H). exists sc, j. auto. }
+  destruct v; unfold fate; auto.
+  intros (A & B & C). splits; auto. destruct C as [C|[C|C]]; auto.
+Qed.
+
+Lemma J5_report t cl ca done x o t' cl' ca' :
+  dry c = false -> ~ In x (map fst done) -> Inv g t -> Pend g t cl ca -> In x (inprog t) -> creq p t ->
+  handle_report_gen c g (t, cl, ca) (x, o) = (t', cl', ca') ->
+  J5 t cl ca done -> J5 t' cl' ca' (done ++ [(x, o)]).
+Proof.
+  intros D Hnd I P Hx Cr E J.
+  destruct (inprog_facts g t x I Hx) as (Hl & Hc & Hr & Hf & Hca & Hp & Hi).
+  assert (Hlr : x < length (recs t)) by (rewrite (i_len_recs g t I); exact Hl).
+  destruct (hr_mono c g t cl ca x o t' cl' ca' I P Hx E) as (M1 & M2 & M3 & M4 & M5).
+  destruct (hr_bounds c g t cl ca x o t' cl' ca' W I Hx E) as (B1 & B2 & B3 & B4 & B5 & B6).
+  assert (Pcl : ~ In x cl) by (intros H; destruct (P x) as (_ & _ & A & _); auto).
+  assert (Pca : ~ In x ca) by (intros H; destruct (P x) as (_ & _ & A & _); auto).
+  (* what the dispatch does to the accumulators and to the restart counters of the others *)
+  assert (Acc : (forall y, In y cl -> In y cl') /\ (forall y, In y ca -> In y ca') /\
+                (forall y, y <> x -> restarts (getrec t' y) = restarts (getrec t y))).
+  { destruct (hr_frame c g t cl ca x o t' cl' ca' Hlr E)
+      as [(Ev & Rs & Ff & Cc & Kk & Rd & Ip & Cl & Ca & Tx)|(RB & -> & -> & Et)].
+    - splits; auto. intros y Hy. destruct (Cl y Hy) as [->|H]; [contradiction|exact H].
+    - splits; auto. intros y Hne.
+      set (t1 := rec_inc_restarts x (rec_set_status x TIMEDOUT t)) in *.
+      assert (I1 : Inv g t1) by (apply Inv_inc_restarts, Inv_set_status; [discriminate|auto]).
+      destruct (execute_record_recs c g x true t1 W I1 Hl) as (R1 & _). rewrite Et, R1.
+      unfold t1. rewrite getrec_inc_restarts_neq by auto. apply restarts_set_status. }
+  destruct Acc as (Acl & Aca & Ars).
+  constructor.
+  - rewrite M3. apply (k_cn _ _ _ _ J).
+  - rewrite M3. apply (k_cn2 _ _ _ _ J).
+  - intros y Hy. rewrite map_app, in_app_iff in Hy. cbn in Hy.
+    assert (Hne : y <> x) by (intros ->; tauto).
+    rewrite Ars by exact Hne. apply (k_rs _ _ _ _ J). tauto.
+  - intros y v Hy. apply in_app_iff in Hy. destruct Hy as [Hy|[Hy|[]]].
+    + (* an earlier report: its fate is kept *)
+      assert (Hne : x <> y).
+      { intros <-. apply Hnd. apply in_map_iff. exists (x, Some v). auto. }
+      apply (fate_keep t cl ca t' cl' ca' y v); auto; [rewrite M5; auto| |exact (k_fate _ _ _ _ J y v Hy)].
+      intros Uy Py.
+      assert (Nb : ~ In y (bfs_subtree g x)) by (apply (not_in_bfs g t y x W I Py); auto).
+      splits.
+      * intros H. destruct (B1 y H); tauto.
+      * intros H. destruct (B2 y H); tauto.
+      * auto.
+      * auto.
+      * intros _ _. rewrite B4; auto.
+    + (* the report being dispatched *)
+      inversion Hy; subst y o; clear Hy.
+      assert (Cn : canceled t = true <-> (canceled s = true \/ cancel_req p = true)).
+      { split; [apply (k_cn _ _ _ _ J)|]. intros [H|H]; [apply (k_cn2 _ _ _ _ J H)|apply Cr; exact H]. }
+      assert (Rs0 : restarts (getrec t x) = restarts (getrec s x)) by (apply (k_rs _ _ _ _ J); exact Hnd).
+      unfold handle_report_gen in E.
+      destruct v; unfold fate; auto; cbn [oeqb state_eqb] in E.
+      * (* FAILED *)
+        inversion E; subst t' cl' ca'; clear E. unfold PendF. splits; auto.
+        -- intros y Hy. right. apply In_set_union. auto.
+        -- left. apply In_set_union. left. apply bfs_subtree_root.
+      * (* TIMEDOUT *)
+        destruct (has_restart (attr g x) && negb (canceled t)) eqn:HR.
+        -- apply andb_true_iff in HR. destruct HR as [HR1 HR2]. apply negb_true_iff in HR2.
+           assert (Nnr : ~ cond_nr x).
+           { intros [H|H]; [congruence|]. apply Cn in H. congruence. }
+           unfold mark_restart_gen in E.
+           assert (Er : restarts (getrec (rec_set_status x TIMEDOUT t) x) = restarts (getrec t x)) by apply restarts_set_status.
+           rewrite Er in E.
+           destruct ((rlimit (attr g x) =? 0) || (restarts (getrec t x) <? rlimit (attr g x))) eqn:Bd.
+           ++ inversion E; subst t' cl' ca'; clear E.
+              set (t1 := rec_inc_restarts x (rec_set_status x TIMEDOUT t)) in *.
+              assert (I1 : Inv g t1) by (apply Inv_inc_restarts, Inv_set_status; [discriminate|auto]).
+              splits; [tauto| |].
+              ** intros (_ & _ & _ & E1 & E2). exfalso. rewrite <- Rs0 in E2.
+                 apply orb_true_iff in Bd. destruct Bd as [Bd|Bd]; [apply Nat.eqb_eq in Bd; lia|apply Nat.ltb_lt in Bd; lia].
+              ** destruct (execute_record_outcome c g x true t1 W I1 Hl D) as [[j Hj]|[O1 O2]].
+                 --- right. right. exists (scheduled (attr g x)), j. exact Hj.
+                 --- right. left. unfold PendF. splits; auto.
+                     intros z Hz. apply M2. apply Hp. exact Hz.
+           ++ inversion E; subst t' cl' ca'; clear E.
+              assert (PF : PendF (inprog_remove x (rec_set_status x TIMEDOUT t)) (set_union (bfs_subtree g x) cl) ca x).
+              { unfold PendF. splits; auto.
+                - intros y Hy. right. apply In_set_union. auto.
+                - left. apply In_set_union. left. apply bfs_subtree_root. }
+              splits; [tauto|auto|auto].
+        -- inversion E; subst t' cl' ca'; clear E.
+           assert (SF : SetF (failed_add x (inprog_remove x (rec_set_status x TIMEDOUT t)))
+                             (srem x (set_union (bfs_subtree g x) cl)) ca x).
+           { unfold SetF. splits; auto.
+             - unfold failed_add. sp. apply In_sadd. auto.
+             - rewrite In_srem. tauto.
+             - change (status (getrec (rec_set_status x TIMEDOUT t) x) = TIMEDOUT).
+               rewrite getrec_set_status_eq by exact Hlr. reflexivity. }
+           splits; auto. intros (E1 & E2 & E3 & _). exfalso.
+           assert (canceled t = false).
+           { destruct (canceled t) eqn:Ct; auto. destruct (proj1 Cn eq_refl); congruence. }
+           rewrite E1, H in HR. discriminate.
+      * (* UNKNOWN *)
+        inversion E; subst t' cl' ca'; clear E. unfold PendF. splits; auto.
+        -- intros y Hy. right. apply In_set_union. auto.
+        -- left. apply In_set_union. left. apply bfs_subtree_root.
+      * (* CANCELLED *)
+        inversion E; subst t' cl' ca'; clear E. unfold PendC. splits; auto.
+        -- intros y Hy. right. apply In_set_union. auto.
+        -- left. apply In_set_union. left. apply bfs_subtree_root.
+Qed.
+
+(** steps that keep records, result sets and accumulators *)
+Lemma fate_same t t' cl ca x v : recs t' = recs t -> failed t' = failed t -> cancelled t' = cancelled t ->
+  (forall y, In y (completed t) -> In y (completed t')) -> (forall e, In e (evs t) -> In e (evs t')) ->
+  fate t cl ca x v -> fate t' cl ca x v.
+Proof.
+  intros E1 E2 E3 Hc He. apply fate_keep; auto; rewrite ?E2, ?E3; auto.
+  intros _ _. unfold getrec. rewrite E1. splits; auto.
+Qed.
+
+Lemma J5_step a b : pstep c g p a b -> J5c a -> J5c b.
+Proof.
+  intros St. destruct St as [t Cq I|t D I|t cl ca done x o t' cl' ca' D Q Hin Hnd Hinc I P Hx Cr Nm E
+                            |t a cl ca done I P|t a ca done I P|t x done Hx I|t done I Cr]; unfold J5c.
+  - (* cancel *)
+    intros [A1 A2 A3 A4]. constructor; auto.
+    intros x v Hx. apply (fate_same t); auto. intros e He. right. exact He.
+  - (* check *)
+    intros [A1 A2 A3 A4]. constructor; auto.
+    intros x v Hx. apply (fate_same t); auto. intros e He. right. exact He.
+  - intros J. eapply J5_report; eauto.
+  - (* sweep failed *)
+    intros [A1 A2 A3 A4]. destruct (P a) as (Al & Ac & Ai & Ar); [left; left; reflexivity|].
+    assert (Hlr : a < length (recs t)) by (rewrite (i_len_recs g t I); exact Al).
+    constructor; auto.
+    + intros x Hx. rewrite restarts_set_status. apply (A3 x Hx).
+    + intros x v Hx. apply (fate_keep t (a :: cl) ca); auto.
+      * intros y Hy. unfold rec_set_status, failed_add. sp. apply In_sadd. auto.
+      * intros y [<-|Hy]; auto. left. unfold rec_set_status, failed_add. sp. apply In_sadd. auto.
+      * intros _ _. splits; auto.
+        -- intros H. right. exact H.
+        -- intros [<-|H]; auto. right.
+           change (status (getrec (rec_set_status a FAILED (failed_add a t)) a) = FAILED).
+           rewrite getrec_set_status_eq; auto.
+        -- intros Hn _. rewrite getrec_set_status_neq; auto. intros ->. apply Hn. left. reflexivity.
+  - (* sweep cancelled *)
+    intros [A1 A2 A3 A4]. destruct (P a) as (Al & Ac & Ai & Ar); [right; left; reflexivity|].
+    assert (Hlr : a < length (recs t)) by (rewrite (i_len_recs g t I); exact Al).
+    constructor; auto.
+    + intros x Hx. rewrite restarts_set_status. apply (A3 x Hx).
+    + intros x v Hx. apply (fate_keep t [] (a :: ca)); auto.
+      * intros y Hy. unfold rec_set_status, cancelled_add. sp. apply In_sadd. auto.
+      * intros y [<-|Hy]; auto. left. unfold rec_set_status, cancelled_add. sp. apply In_sadd. auto.
+      * intros _ _. splits; auto.
+        -- intros H. right. exact H.
+        -- intros [<-|H]; auto. right.
+           change (status (getrec (rec_set_status a CANCELLED (cancelled_add a t)) a) = CANCELLED).
+           rewrite getrec_set_status_eq; auto.
+        -- intros _ Hn. rewrite getrec_set_status_neq; auto. intros ->. apply Hn. left. reflexivity.
+  - (* stage *)
+    intros [A1 A2 A3 A4].
+    destruct (stage_node_frame g t x) as (F1 & F2 & F3 & F4 & F5 & F6 & F7 & _).
+    constructor; unfold getrec; rewrite ?F5, ?F6; auto.
+    intros y v Hy. apply (fate_same t); auto. rewrite F1. auto. rewrite F7. auto.
+  - (* launch *)
+    intros J. unfold launch_body_gen. destruct (ready t) as [|x rest] eqn:E; auto.
+    destruct (ready_head_facts g t x rest I E) as (Hl & Hc & Hi & Hr & Hf & Hca & Hp).
+    assert (Hxr : In x (ready t)) by (rewrite E; left; reflexivity).
+    pose proof (Inv_pop g x rest t I E) as I1.
+    destruct J as [A1 A2 A3 A4].
+    assert (Hne : forall y, U t [] [] y -> y <> x).
+    { intros y [H|[H|[[]|[]]]] ->; contradiction. }
+    change (canceled (set_ready t rest)) with (canceled t). destruct (canceled t) eqn:Cn.
+    + constructor; auto.
+      * intros y Hy. change (restarts (getrec (rec_set_status x CANCELLED t) y) = restarts (getrec s y)).
+        rewrite restarts_set_status. apply (A3 y Hy).
+      * intros y v Hy. apply (fate_keep t [] []); auto.
+        -- intros z Hz. unfold rec_set_status, cancelled_add. sp. apply In_sadd. auto.
+        -- intros Uy _. splits; auto. intros _ _.
+           change (status (getrec (rec_set_status x CANCELLED t) y) = status (getrec t y)).
+           rewrite getrec_set_status_neq; auto. intros ->. exact (Hne y Uy eq_refl).
+    + set (t1 := set_ready t rest) in *.
+      pose proof (execute_record_sets c g x false t1) as ES.
+      destruct (execute_record_evs c g x false t1) as (new & V1 & _).
+      destruct (execute_record_recs c g x false t1 W I1 Hl) as (R1 & R2 & _).
+      constructor; auto.
+      * intros H. rewrite (er_canceled _ _ _ _ ES) in H. change (canceled t1) with (canceled t) in H. congruence.
+      * intros H. specialize (A2 H). discriminate.
+      * intros y Hy. rewrite R1. apply (A3 y Hy).
+      * intros y v Hy. apply (fate_keep t [] []); auto.
+        -- apply (er_f1 _ _ _ _ ES).
+        -- rewrite (er_cancelled _ _ _ _ ES). auto.
+        -- apply (er_c1 _ _ _ _ ES).
+        -- intros e He. rewrite V1. apply in_app_iff. right. exact He.
+        -- intros Uy Py. splits; auto. intros _ _.
+           assert (Nb : ~ In y (bfs_subtree g x)) by (apply (not_in_bfs g t y x W I Py); auto; intros ->; exact (Hne y Uy eq_refl)).
+           destruct (R2 y) as [R|[->|(B & _)]]; [rewrite R; reflexivity|exfalso; exact (Hne x Uy eq_refl)|contradiction].
+Qed.
+
+Lemma J5_start : J5c (conf0 s p).
+Proof. unfold J5c, conf0, poll_start. constructor; auto. intros x v []. Qed.
+End Fate.
+
+(** what a poll guarantees for a node with an unsuccessful terminal report *)
+Definition reported_ok (c : cfg) (g : graph) (p : pin) (s s' : st) (x : nat) (v : State) : Prop :=
+  match v with
+  | FAILED | UNKNOWN => (forall d, reach g x d -> In d (failed s')) /\ status (getrec s' x) = FAILED
+  | CANCELLED => (forall d, reach g x d -> In d (cancelled s')) /\ status (getrec s' x) = CANCELLED
+  | TIMEDOUT =>
+      (cond_nr g p s x -> In x (failed s') /\ status (getrec s' x) = TIMEDOUT) /\
+      (cond_ex g p s x -> (forall d, reach g x d -> In d (failed s')) /\ status (getrec s' x) = FAILED) /\
+      ((In x (failed s') /\ (status (getrec s' x) = TIMEDOUT \/ status (getrec s' x) = FAILED)) \/
+       exists sc j, In (ESubmit x Restart sc (Some j)) (evs s'))
+  | _ => True
+  end.
+
+Theorem poll_reported c g s p : WF g -> Inv g s -> valid_pin s p = true ->
+  dry c = false -> qcode p = QOK -> forall x v, In (x, Some v) (reports p) ->
+  reported_ok c g p s (fst (poll c g s p)) x v.
+Proof.
+  intros W I V D Q x v Hin. pose proof (poll_reach c g p W s I V) as R.
+  pose proof (psteps_ind_inv c g p (J5c g p s) (J5_step c g p s W) _ _ R (J5_start g p s)) as J.
+  unfold J5c in J.
+  assert (Ed : (if qcode_eqb (qcode p) QERROR && negb (dry c) then [] else delivered c p) = reports p).
+  { unfold delivered. rewrite D, Q. reflexivity. }
+  rewrite Ed in J. pose proof (k_fate _ _ _ _ _ _ _ J x v Hin) as F.
+  apply valid_pin_spec in V. destruct V as [_ Vi].
+  assert (Hl : x < length g) by (apply (i_bound g s I); right; left; eapply Vi; eauto).
+  set (s' := fst (poll c g s p)) in *.
+  assert (PF : PendF g s' [] [] x -> (forall d, reach g x d -> In d (failed s')) /\ status (getrec s' x) = FAILED).
+  { intros (A & _ & B & _). split.
+    - intros d Rd. destruct (A d (bfs_subtree_complete g x d W Hl Rd)) as [H|[]]. exact H.
+    - destruct B as [[]|B]. exact B. }
+  assert (SF : SetF g s' [] [] x -> In x (failed s') /\ status (getrec s' x) = TIMEDOUT).
+  { intros (A & _ & _ & B & _). auto. }
+  destruct v; unfold reported_ok, fate in *; auto.
+  - destruct F as (F1 & F2 & F3). splits; auto.
+    destruct F3 as [F3|[F3|F3]]; auto.
+    + left. destruct (SF F3). auto.
+    + left. destruct (PF F3) as [A B]. split; auto. apply A. apply reach_refl.
+  - destruct F as (A & _ & B & _). split.
+    + intros d Rd. destruct (A d (bfs_subtree_complete g x d W Hl Rd)) as [H|[]]. exact H.
+    + destruct B as [[]|B]. exact B.
+Qed.
